@@ -10,10 +10,14 @@ package main
 import (
 	"bytes"
 	"context"
+	"crypto/aes"
+	"crypto/sha256"
 	"encoding/binary"
 	"fmt"
 	"math/big"
 	"time"
+
+	"github.com/gotd/ige"
 
 	"github.com/gotd/td/bin"
 	"github.com/gotd/td/crypto"
@@ -29,6 +33,133 @@ type cfg struct {
 	DC      int    `json:"dc"`
 	Expires int    `json:"expires"` // 0 = permanent
 	Jitter  bool   `json:"jitter"`
+	// Steer selects a rare-but-legal random value that is searched for with math/big before the run
+	// and forced into the real code through the recorded random source (see steer()):
+	// "" none | key-lzN | ga-lzN | gb-lzN | rsa-plain-lzN | rsa-cipher-lzN | nonces-lz  (N leading zero bytes)
+	Steer string `json:"steer"`
+}
+
+// testing pq of the in-tree server and its factors
+var (
+	testPQ = big.NewInt(0x17ED48941A08F981)
+	testP  = big.NewInt(0x494C553B)
+	testQ  = big.NewInt(0x53911073)
+)
+
+// rsaPadPlain is an independent transcription of RSA_PAD steps 1-7 (core.telegram.org/mtproto/auth_key):
+// key_aes_encrypted = (temp_key xor SHA256(aes_encrypted)) ++ aes_encrypted, where
+// aes_encrypted = AES256_IGE(reverse(data+padding) ++ SHA256(temp_key ++ data+padding), temp_key, 0).
+func rsaPadPlain(data, padding, tempKey []byte) []byte {
+	dwp := append(append([]byte(nil), data...), padding...)
+	rev := make([]byte, len(dwp))
+	for i := range dwp {
+		rev[i] = dwp[len(dwp)-1-i]
+	}
+	h := sha256.Sum256(append(append([]byte(nil), tempKey...), dwp...))
+	dwh := append(rev, h[:]...)
+	blk, _ := aes.NewCipher(tempKey)
+	enc := make([]byte, len(dwh))
+	ige.EncryptBlocks(blk, make([]byte, 32), enc, dwh)
+	eh := sha256.Sum256(enc)
+	out := make([]byte, 0, 256)
+	for i := 0; i < 32; i++ {
+		out = append(out, tempKey[i]^eh[i])
+	}
+	return append(out, enc...)
+}
+
+func fill256(x *big.Int) []byte { b := make([]byte, 256); x.FillBytes(b); return b }
+
+// steer searches the requested rare values (deterministically from cf.Seed) and installs them in the
+// two random sources. It returns a description of what it aimed for.
+func steer(cf cfg, key exchange.PrivateKey, cr, sr *xkit.RecRand) string {
+	if cf.Steer == "" {
+		return ""
+	}
+	r := hx.NewRand(cf.Seed + 11)
+	kind, n := cf.Steer, 1
+	if i := len(kind) - 1; i > 0 && kind[i] >= '1' && kind[i] <= '9' {
+		n = int(kind[i] - '0')
+		kind = kind[:i]
+	}
+	p, _ := exchange.TestServerRNG{}.DhPrime()
+	three := big.NewInt(3)
+	one := big.NewInt(1)
+	lo := new(big.Int).Lsh(one, 1984)
+	hi := new(big.Int).Sub(p, lo)
+	inRange := func(x *big.Int) bool { return x.Cmp(lo) > 0 && x.Cmp(hi) < 0 }
+	lz := func(x *big.Int) int { return xkit.LeadingZeros(fill256(x)) }
+	switch kind {
+	case "key-lz", "ga-lz", "gb-lz":
+		a := new(big.Int).SetBytes(r.Bytes(256))
+		ga := new(big.Int).Exp(three, a, p)
+		for !inRange(ga) || (kind == "ga-lz" && lz(ga) < n) {
+			a.Add(a, one)
+			ga.Mul(ga, three).Mod(ga, p)
+		}
+		b := new(big.Int).SetBytes(r.Bytes(256))
+		gb := new(big.Int).Exp(three, b, p)
+		k := new(big.Int).Exp(ga, b, p)
+		for !inRange(gb) || (kind == "gb-lz" && lz(gb) < n) || (kind == "key-lz" && lz(k) < n) {
+			b.Add(b, one)
+			gb.Mul(gb, three).Mod(gb, p)
+			k.Mul(k, ga).Mod(k, p)
+		}
+		if a.BitLen() > 2048 || b.BitLen() > 2048 {
+			return "search overflowed"
+		}
+		sr.SteerRead(256, 1, fill256(a))
+		cr.SteerRead(256, 1, fill256(b))
+		return fmt.Sprintf("%s: g_a lz=%d g_b lz=%d key lz=%d", cf.Steer, lz(ga), lz(gb), lz(k))
+	case "rsa-plain-lz", "rsa-cipher-lz":
+		nonce, newNonce, serverNonce := r.Bytes(16), r.Bytes(32), r.Bytes(16)
+		var n128, s128 bin.Int128
+		var n256 bin.Int256
+		copy(n128[:], nonce)
+		copy(s128[:], serverNonce)
+		copy(n256[:], newNonce)
+		var enc bin.Encoder = &mt.PQInnerDataDC{Pq: testPQ.Bytes(), P: testP.Bytes(), Q: testQ.Bytes(), Nonce: n128, ServerNonce: s128, NewNonce: n256, DC: cf.DC}
+		if cf.Expires > 0 {
+			enc = &mt.PQInnerDataTempDC{Pq: testPQ.Bytes(), P: testP.Bytes(), Q: testQ.Bytes(), Nonce: n128, ServerNonce: s128, NewNonce: n256, DC: cf.DC, ExpiresIn: cf.Expires}
+		}
+		var buf bin.Buffer
+		if err := enc.Encode(&buf); err != nil {
+			return "encode failed"
+		}
+		padding := r.Bytes(192 - len(buf.Buf))
+		N, E := key.RSA.N, big.NewInt(int64(key.RSA.E))
+		for try := 0; try < 1<<22; try++ {
+			tk := r.Bytes(32)
+			kae := rsaPadPlain(buf.Buf, padding, tk)
+			m := new(big.Int).SetBytes(kae)
+			if m.Cmp(N) >= 0 {
+				continue
+			}
+			got := xkit.LeadingZeros(kae)
+			if kind == "rsa-cipher-lz" {
+				got = xkit.LeadingZeros(fill256(new(big.Int).Exp(m, E, N)))
+			}
+			if got >= n {
+				cr.SteerRead(16, 1, nonce)
+				cr.SteerRead(32, 1, newNonce)
+				cr.SteerRead(len(padding), 1, padding)
+				cr.SteerRead(32, 2, tk)
+				sr.SteerRead(16, 1, serverNonce)
+				return fmt.Sprintf("%s: found after %d temp keys", cf.Steer, try+1)
+			}
+		}
+		return "search exhausted"
+	case "nonces-lz":
+		nn := r.Bytes(32)
+		nn[0], nn[1] = 0, 0
+		no, sn := r.Bytes(16), r.Bytes(16)
+		no[0], sn[0], sn[1] = 0, 0, 0
+		cr.SteerRead(16, 1, no)
+		cr.SteerRead(32, 1, nn)
+		sr.SteerRead(16, 1, sn)
+		return "nonces-lz"
+	}
+	return "unknown steer " + cf.Steer
 }
 
 var primeMemo = map[string]bool{}
@@ -61,6 +192,7 @@ func main() {
 		defer l.Close()
 		cr := &xkit.RecRand{R: hx.NewRand(cf.Seed)}
 		sr := &xkit.RecRand{R: hx.NewRand(cf.Seed + 1)}
+		steered := steer(cf, key, cr, sr)
 		ctx, cancel := context.WithTimeout(context.Background(), 60*time.Second)
 		defer cancel()
 		type sres struct {
@@ -69,10 +201,10 @@ func main() {
 		}
 		sch := make(chan sres, 1)
 		go func() {
-			r, err := exchange.NewExchanger(l.Server, cf.DC).WithRand(sr).WithTimeout(30 * time.Second).Server(key).Run(ctx)
+			r, err := exchange.NewExchanger(l.Server, cf.DC).WithRand(sr).WithTimeout(10 * time.Second).Server(key).Run(ctx)
 			sch <- sres{r, err}
 		}()
-		ex := exchange.NewExchanger(l.Client, cf.DC).WithRand(cr).WithTimeout(30 * time.Second)
+		ex := exchange.NewExchanger(l.Client, cf.DC).WithRand(cr).WithTimeout(10 * time.Second)
 		if cf.Expires > 0 {
 			ex = ex.WithTempMode(cf.Expires)
 		}
@@ -87,11 +219,16 @@ func main() {
 		case <-time.After(20 * time.Second):
 			s.err = fmt.Errorf("server did not finish")
 		}
-		c.Count(fmt.Sprintf("mode-temp=%v:jitter=%v:client-ok=%v:server-ok=%v", cf.Expires > 0, cf.Jitter, cerr == nil && !pn, s.err == nil))
+		c.Count(fmt.Sprintf("mode-temp=%v:jitter=%v:steer=%s:client-ok=%v:server-ok=%v", cf.Expires > 0, cf.Jitter, cf.Steer, cerr == nil && !pn, s.err == nil))
 
 		// ---- random values actually drawn ----
 		n16, n32, b256 := cr.OfSize(16), cr.OfSize(32), cr.OfSize(256)
 		s16, a256 := sr.OfSize(16), sr.OfSize(256)
+		if (cerr != nil || s.err != nil || pn) && (len(b256) != 1 || len(a256) < 1) {
+			// an honest run that broke before both DH exponents were drawn
+			c.Violate("honest-exchange-failed", fmt.Sprintf("dc=%d expires=%d seed=%d steer=%q: client error %v (panic=%v), server error %v", cf.DC, cf.Expires, cf.Seed, cf.Steer, cerr, pn, s.err), -1, 0, cf)
+			return
+		}
 		if len(n16) < 1 || len(n32) < 1 || len(b256) != 1 || len(s16) < 1 || len(a256) < 1 {
 			c.Violate("random-stream-shape", fmt.Sprintf("unexpected shape of the recorded random streams (client 16:%d 32:%d 256:%d, server 16:%d 256:%d; client err %v, server err %v)",
 				len(n16), len(n32), len(b256), len(s16), len(a256), cerr, s.err), -1, 0, cf)
@@ -140,7 +277,45 @@ func main() {
 				}
 			}
 		}
+		if cerr == nil && (pq.Sign() == 0 || fp.Sign() == 0) {
+			c.Note("wire analysis: ResPQ / req_DH_params of a successful run could not be decoded")
+			c.Count("wire-analysis-failed")
+		}
 		half := new(big.Int).Rsh(new(big.Int).Sub(p, big.NewInt(1)), 1)
+		// what the steering achieved, measured on the wire / on the values actually used
+		if cf.Steer != "" {
+			rsaPlainLZ, rsaCipherLZ := -1, -1
+			for _, e := range l.Events() {
+
+				if e.Dir == "c2s" && e.I == 2 {
+					if _, body, err := xkit.Body(e.Data); err == nil {
+						var m mt.ReqDHParamsRequest
+						if derr := m.Decode(&bin.Buffer{Buf: body}); derr != nil {
+							c.Note("decode req_DH_params from the wire: " + derr.Error())
+						} else {
+							rsaCipherLZ = xkit.LeadingZeros(m.EncryptedData)
+							pl := new(big.Int).Exp(new(big.Int).SetBytes(m.EncryptedData), key.RSA.D, key.RSA.N)
+							rsaPlainLZ = xkit.LeadingZeros(fill256(pl))
+						}
+					}
+				}
+			}
+			ach := fmt.Sprintf("steered[%s] achieved: key lz=%d g_a lz=%d g_b lz=%d rsa-plain lz=%d rsa-cipher lz=%d nonce lz=%d new_nonce lz=%d server_nonce lz=%d (%s)",
+				cf.Steer, xkit.LeadingZeros(fill256(kc)), xkit.LeadingZeros(fill256(ga)), xkit.LeadingZeros(fill256(gb)), rsaPlainLZ, rsaCipherLZ,
+				xkit.LeadingZeros(nonce), xkit.LeadingZeros(newNonce), xkit.LeadingZeros(serverNonce), steered)
+			c.Note(ach)
+			want := map[string]int{"key-lz": xkit.LeadingZeros(fill256(kc)), "ga-lz": xkit.LeadingZeros(fill256(ga)), "gb-lz": xkit.LeadingZeros(fill256(gb)),
+				"rsa-plain-lz": rsaPlainLZ, "rsa-cipher-lz": rsaCipherLZ, "nonces-lz": xkit.LeadingZeros(newNonce)}
+			kind := cf.Steer
+			if i := len(kind) - 1; kind[i] >= '1' && kind[i] <= '9' {
+				kind = kind[:i]
+			}
+			if want[kind] >= 1 {
+				c.Count("steering-effective:" + cf.Steer)
+			} else {
+				c.Count("steering-ineffective:" + cf.Steer)
+			}
+		}
 		// ---- observations ----
 		obs := func(ok bool, k crypto.AuthKey, salt int64, errc int) string {
 			if !ok {
@@ -180,7 +355,7 @@ func main() {
 		}
 		if cerr != nil || s.err != nil {
 			// the only legitimate failure of an honest run: g_b outside the safety range (probability ~2^-63)
-			bad("honest-exchange-failed", fmt.Sprintf("client error %v, server error %v", cerr, s.err))
+			bad("honest-exchange-failed", fmt.Sprintf("steer=%q: client error %v, server error %v", cf.Steer, cerr, s.err))
 			return
 		}
 		want := make([]byte, 256)
@@ -219,8 +394,23 @@ func main() {
 		c.Finish()
 		return
 	}
+	// boundary randomness, always included: big-endian values with leading zero bytes in every
+	// 2048-bit quantity of the exchange (FillBytes vs Bytes), and zero-led nonces
+	steers := []string{"key-lz1", "key-lz2", "ga-lz1", "gb-lz1", "gb-lz2", "rsa-plain-lz1", "rsa-cipher-lz1", "nonces-lz"}
+	if c.Thorough() {
+		steers = append(steers, "key-lz3", "ga-lz2", "rsa-plain-lz2", "rsa-cipher-lz2")
+	}
+	for rep := 0; rep < c.N(1, 6); rep++ {
+		for i, st := range steers {
+			cf := cfg{Seed: c.Rng.U64(), DC: 2, Steer: st}
+			if (i+rep+int(c.Seed))%2 == 1 {
+				cf.Expires = 3600
+			}
+			one(cf)
+		}
+	}
 	dcs := []int{2, 1, 5, 0, -1, 10002, 2147483647, -2147483648}
-	n := c.N(10, 300)
+	n := c.N(5, 300)
 	for i := 0; i < n; i++ {
 		cf := cfg{Seed: c.Rng.U64(), DC: dcs[i%len(dcs)], Jitter: i%3 == 2}
 		if i%2 == 1 {
@@ -231,6 +421,6 @@ func main() {
 		}
 		one(cf)
 	}
-	c.Obs.Rule = "honest exchanges with fresh random streams on both sides (splitmix64 from the run seed), alternating permanent / temporary mode (expires 1..86400), dc over {2,1,5,0,-1,10002,MaxInt32,MinInt32} then random int32, a third of the runs with 0..3 ms random delays in the relay; non-trivial = distinct new_nonce"
+	c.Obs.Rule = "steered honest exchanges first (random values searched with math/big so that g^(ab), g_a, g_b, the RSA_PAD plaintext key_aes_encrypted, the RSA ciphertext have 1..2 (thorough ..3) leading zero bytes, and zero-led nonces; forced into the real code through the recorded random source and confirmed on the wire), then honest exchanges with fresh random streams on both sides (splitmix64 from the run seed), alternating permanent / temporary mode (expires 1..86400), dc over {2,1,5,0,-1,10002,MaxInt32,MinInt32} then random int32, a third of the runs with 0..3 ms random delays in the relay; non-trivial = distinct new_nonce"
 	c.Finish()
 }
